@@ -783,6 +783,49 @@ def r15_padding_fits_its_nibble(cx):
                         for x in src:
                             if x[0] == "call" and call_is(b.term(x[1]), r"cmp::min(::<.*>)?$|cmp::Ord>::min$|::min$"):
                                 mins += [op_const_deep(b, a) for a in b.term(x[1])["args"] if op_const_deep(b, a) is not None]
+                        # `x % C` is at most C - 1
+                        seen_l, work = set(), [op]
+                        while work:
+                            o_ = work.pop()
+                            l = op_local(o_) if op_place(o_) is not None and not op_place(o_).get("p") else None
+                            if l is None or l in seen_l:
+                                continue
+                            seen_l.add(l)
+                            for d in b.defs().get(l, []):
+                                if d[0] == "stmt" and d[3]["k"] == "assign":
+                                    rv2 = d[3]["rv"]
+                                    if rv2["k"] in ("use", "cast"):
+                                        work.append(rv2["op"])
+                                    elif rv2["k"] == "bin" and rv2["op"] == "Rem" and op_const_deep(b, rv2["b"]) is not None:
+                                        mins.append(op_const_deep(b, rv2["b"]) - 1)
+                        # `assert!((1..=C).contains(&x))`: a dominating test by RangeInclusive::contains whose false arm does not get here
+                        for ci, ct in b.calls(r"RangeInclusive::<.*>::contains(::<.*>)?$|RangeToInclusive::<.*>::contains"):
+                            if not b.dominates(ci, i) or len(ct["args"]) < 2 or not (b.origins(ct["args"][1]) & src):
+                                continue
+                            sw = b.succ[ci][0]
+                            tsw = b.term(sw)
+                            if tsw["k"] != "switch" or 0 not in tsw["vals"]:
+                                continue
+                            false_arm = tsw["targets"][tsw["vals"].index(0)]
+                            if i in b.reachable(false_arm, avoid={sw}) or false_arm == i:
+                                continue
+                            ends = []
+                            for x in b.origins(ct["args"][0]):
+                                if x[0] == "call" and call_is(b.term(x[1]), r"RangeInclusive::<.*>::new$") and len(b.term(x[1])["args"]) == 2:
+                                    ends.append(op_const_deep(b, b.term(x[1])["args"][1]))
+                                if x[0] == "const" and isinstance(x[1], str):
+                                    m_ = re.search(r"(\d+)\s*\.\.=\s*(\d+)", x[1])
+                                    if m_:
+                                        ends.append(int(m_.group(2)))
+                            if not ends:
+                                # a literal range is a promoted constant in MIR: read its bounds from the source expression
+                                for n_ in hir_walk(F.tree(f)):
+                                    if n_.get("k") == "call" and n_.get("ln") == ct.get("ln") and hcall_is(n_, r"RangeInclusive::<.*>::contains|RangeInclusive.*contains"):
+                                        for a_ in [n_.get("recv") or {}] + list(n_.get("args") or []):
+                                            m_ = re.search(r"\(?\s*(\d+)\s*\.\.=\s*(\d+)\s*\)?", a_.get("snip", "") or "")
+                                            if m_:
+                                                ends.append(int(m_.group(2)))
+                            mins += [e for e in ends if e is not None]
                         best = min(bounds + mins) if bounds + mins else None
                         ok, how = best is not None and best <= MAXPAD, "bounded by %s" % best
                     nm = re.sub(r"<.*?>", "", f["name"]).split("::")[-1]
